@@ -165,6 +165,12 @@ class ApplyLayoutCastSubviewGlobal(RewritePattern):
         global_op = SymbolTable.lookup_symbol(op, const_source.name_)
         if not isinstance(global_op, memref.GlobalOp):
             return
+        # the global is replaced by a transformed one, so nothing else may refer to it
+        if any(
+            isinstance(other, memref.GetGlobalOp) and other is not const_source and other.name_ == const_source.name_
+            for other in global_op.parent_op().walk()  # pyright: ignore[reportOptionalMemberAccess]
+        ):
+            return
 
         # determine a new layout for the global such that
         # the subview has an easier job to do
@@ -371,6 +377,12 @@ class ApplyLayoutCastMemrefGlobal(RewritePattern):
             return
         global_op = SymbolTable.lookup_symbol(op, const_source.name_)
         if not isinstance(global_op, memref.GlobalOp):
+            return
+        # the global is replaced by a transformed one, so nothing else may refer to it
+        if any(
+            isinstance(other, memref.GetGlobalOp) and other is not const_source and other.name_ == const_source.name_
+            for other in global_op.parent_op().walk()  # pyright: ignore[reportOptionalMemberAccess]
+        ):
             return
 
         # apply transformation
